@@ -201,3 +201,11 @@ Theorem C01_create_then_query_through_engine : forall n_chroms chroms (px : list
       map (fun i => map (fun j => Pixels.symm px i j) (zrange j0 (Z.to_nat (j1 - j0)))) (zrange i0 (Z.to_nat (i1 - i0))).
 Proof. exact EndToEnd.create_then_query. Qed.
 Print Assumptions C01_create_then_query_through_engine.
+
+(** ---- tie to the source: the fit check and the store statements of write_pixels and the validator chaining of
+    create() are pinned in the source on every run (tools/py2v.py; the constants exist only if the statements are
+    unchanged), and the per-record predicates of the validator are translated (see Props/C13.v). *)
+From Cooler Require Import Gen.Translated Proofs.GenBridgeCreate.
+Theorem C01_source_pins : Gen.validate_pixels_source_pins = true /\ Gen.create_write_source_pins = true.
+Proof. exact gen_validate_pins. Qed.
+Print Assumptions C01_source_pins.
